@@ -1,6 +1,10 @@
 #!/usr/bin/env python3
 """tools/seedtable.py : markdown tables for DESIGN.md from seeded/*/meta.json and evidence/*.json (regenerate after each round)"""
-import glob, json, os, re
+import glob, io, json, os, re, sys
+_out = io.StringIO()
+_print = print
+def print(*a):
+    _print(*a, file=_out)
 root = os.path.dirname(os.path.dirname(os.path.abspath(__file__)))
 print("| seed | property | change (needs to manifest) | caught | by |")
 print("|---|---|---|---|---|")
@@ -20,3 +24,14 @@ for f in sorted(glob.glob(os.path.join(root, 'evidence', '*.json'))):
     print(f"| {e['property_id']} | {e['level']} | {c['obligations']} | {c['discharged']} | {c.get('refuted_inside_known_findings', 0)} | "
           f"{sum(b['cases'] for b in c.get('bounded_standins', []))} | {len(c.get('functions_under_contract', {}))} | "
           f"{c.get('solver_time_s')} | {e['wall_s']} |")
+
+text = _out.getvalue()
+seed_tab, status_tab = text.split("\n\n", 1)
+if '--splice' in sys.argv:
+    dp = os.path.join(root, 'DESIGN.md')
+    d = open(dp).read()
+    for tag, tab in (('SEEDTABLE', seed_tab), ('STATUSTABLE', status_tab)):
+        d = re.sub(r'<!-- %s -->.*?(?=\n### |\n-----)' % tag, lambda m: '<!-- %s -->\n%s\n' % (tag, tab.strip()), d, count=1, flags=re.S)
+    open(dp, 'w').write(d)
+else:
+    _print(text)
